@@ -611,7 +611,8 @@ def run_conc(run, programs, obl_name, monitor=False, timeout=300, known_keys=(),
     for k, (n, s) in per_prog.items():
         if s == 0:
             run.inconclusive_('vacuous: no placement of program %s is reachable' % k)
-    run.extra.setdefault('programs', {}).update({k: {'placements': n, 'reachable': s} for k, (n, s) in per_prog.items()})
+    run.extra.setdefault('program_placements', {}).update({k: {'placements': n, 'reachable': s} for k, (n, s) in per_prog.items()})
+    run.extra['programs'] = len(run.extra['program_placements'])
     seen = set()
     for r in candidates:
         nat = run_native(r['script'], cfg_hooks=True)
